@@ -19,8 +19,11 @@ CONSTANTS Clauses
 VARIABLES l
 Recs == ndJsonDeserialize(IOEnv.TRACE)
 AsExt(e) == {e[i] : i \in DOMAIN e}
-Base(r) == IF "base" \in DOMAIN r THEN r.base ELSE IF r.osm THEN 0 ELSE 8
-Spec(r) == IF "evs" \in DOMAIN r THEN r.evs ELSE ParseDoc(r.input, AsExt(r.ext), r.osm, Base(r))
+Whole(r) == "whole" \in DOMAIN r
+Base(r) == IF Whole(r) \/ r.osm THEN 0 ELSE 8
+\* a whole document: the specification also splits the front matter off (CookParser!ParseWhole)
+Spec(r) == IF "evs" \in DOMAIN r THEN r.evs
+           ELSE IF Whole(r) THEN ParseWhole(r.input, AsExt(r.ext)) ELSE ParseDoc(r.input, AsExt(r.ext), r.osm, Base(r))
 Ok(r) == r.obs.st = "ok"
 Silent(evs) == Diags(evs) = <<>>
 HasCounterpart(d, obs) == \E q \in DOMAIN obs : obs[q].k = d.k /\ obs[q].cls = d.cls /\ Touch(obs[q].s, obs[q].e, d.s, d.e)
@@ -31,9 +34,18 @@ Holds(c, r) ==
     [] c = "EventsBracketed"         -> Ok(r) => Bracketed(r.obs.evs, 1, "out")
     [] c = "RecipeReadAsSpecified"   -> (Ok(r) /\ Silent(spec)) => Payloads(NonDiag(r.obs.evs)) = Payloads(NonDiag(spec))
     [] c = "SilentWhenSpecifiedSilent" -> (Ok(r) /\ Silent(spec)) => Silent(r.obs.evs)
+    \* build_ast over the same parser returns, and its nodes are the parser's events (so their spans are judged above)
+    [] c = "AstReturns"              -> Ok(r) => r.obs.ast.st = "ok"
+    [] c = "AstNodesAreEventNodes"   -> (Ok(r) /\ r.obs.ast.st = "ok") =>
+                                          LET evset == {r.obs.evs[q] : q \in DOMAIN r.obs.evs}
+                                              bl == r.obs.ast.blocks
+                                          IN \A b \in DOMAIN bl : IF bl[b].k \in {"Step", "TextBlock"}
+                                                                  THEN \A i \in DOMAIN bl[b].items : bl[b].items[i] \in evset
+                                                                  ELSE bl[b] \in evset
     [] c = "DiagnosedAsSpecified"    -> Ok(r) => \A q \in DOMAIN spec : IsDiag(spec[q]) => HasCounterpart(spec[q], r.obs.evs)
-Details == {"ExactlyAsSpecified"}
+Details == {"ExactlyAsSpecified", "AstAsSpecified"}
 Agrees(d, r) == CASE d = "ExactlyAsSpecified" -> Ok(r) => r.obs.evs = Spec(r)
+                  [] d = "AstAsSpecified" -> (Ok(r) /\ r.obs.ast.st = "ok") => r.obs.ast.blocks = AstOf(Spec(r))
 Failed(r) == {c \in Clauses : ~Holds(c, r)}
 Drift(r)  == {d \in Details : ~Agrees(d, r)}
 \* (the variables of CookLexer are not used by the judge)
